@@ -62,19 +62,33 @@ def safe_name(s):
 
 
 def run_property(prop_id, tier='quick', seed=0, repo=None, config='default', quiet=False, write_evidence=True,
-                 force=False, silent=False):
+                 force=False, silent=False, anchors_fail_closed=False):
     """Returns (exit_code, ctx).  Prints VIOLATION / KNOWN-FINDING lines."""
     t0 = time.time()
     repo = repo or os.environ.get('VERIF_REPO', '/repo')
     try:
         prog = extract.load_program(repo, config, force=force)
         mod = importlib.import_module(f'props.{prop_id}')
-        ctx = Ctx(prop_id, prog, tier, seed)
-        mod.run(ctx)
     except FailClosed as e:
+        # the tree does not build / facts cannot be produced: no verdict
         if not silent:
             print(f'FAIL-CLOSED property={prop_id}: {e}', flush=True)
         return 2, None
+    ctx = Ctx(prop_id, prog, tier, seed)
+    try:
+        mod.run(ctx)
+    except FailClosed as e:
+        # a construct the rules are anchored in (a function, a call the function must make, a match the rule inspects)
+        # is gone: the mechanism that enforces the property can no longer be found.  Reported as a violation of the rule
+        # "the enforcing construct exists" (the obligations collected so far are kept).
+        if anchors_fail_closed:
+            if not silent:
+                print(f'FAIL-CLOSED property={prop_id}: {e}', flush=True)
+            return 2, None
+        ctx.rules.setdefault('ANCHOR', 'every construct a rule of this property is anchored in exists (function, required call, inspected match)')
+        msg = str(e)
+        ctx.obs.append(dict(rule='ANCHOR', key=re.sub(r'[^A-Za-z0-9_.:|<>= -]+', '_', msg)[:120], ok=False,
+                            what=f'enforcing construct not found: {msg}', site=None, detail=None))
     except Exception:
         traceback.print_exc()
         print(f'FAIL-CLOSED property={prop_id}: internal error in rule module', flush=True)
